@@ -17,6 +17,8 @@
 (*   OctalPadSpace   octal padded with blanks                                *)
 (*   PctEndIndex     the byte after '%' is read without a bounds test        *)
 (*   BlockStartStay  blockStart not moved past the verb                      *)
+(*   PadLeak         padLen only reset when literal text precedes the        *)
+(*                   directive (a width leaks into an adjacent directive)    *)
 (***************************************************************************)
 EXTENDS Integers, Sequences, FiniteSets, TLC, Json, CSV, IOUtils, TraceLib
 CONSTANTS Alphabet,     \* bytes of the scanner family
@@ -26,7 +28,8 @@ CONSTANTS Alphabet,     \* bytes of the scanner family
           Alphabet2, MaxLen2,   \* a second, smaller alphabet explored one byte longer
           WidthStrs,    \* digit strings for the value family  "%" width verb
           Vals,         \* boundary values of every type
-          Families,     \* subset of {"scan", "val"}
+          AdjTokens, AdjLen,    \* directive tokens [f, a] and how many are placed side by side (family "adj")
+          Families,     \* subset of {"scan", "val", "adj"}
           Bug, Emit
 
 K == INSTANCE Kfmt
@@ -43,7 +46,17 @@ vars == <<f, a, mode, pos, bs, width, ai, out, panicked, mismatch>>
 Seqs(S, n) == UNION {[1..k -> S] : k \in 0..n}
 ScanCases(d) == {[f |-> x, a |-> y] : x \in (Seqs(Alphabet, MaxLen) \cup Seqs(Alphabet2, MaxLen2)), y \in Seqs(ScanVals, MaxArgs)}
 ValCases(d) == {[f |-> <<K!PCT>> \o w \o <<v>>, a |-> <<x>>] : w \in WidthStrs, v \in {K!VD, K!VX, K!VO, K!VS, K!VT}, x \in Vals}
+\* adjacent directives (no literal byte between them), with exactly the arguments they need, one fewer, one more
+RECURSIVE FlatF(_, _)
+FlatF(q, i) == IF i > Len(q) THEN <<>> ELSE q[i].f \o FlatF(q, i + 1)
+RECURSIVE FlatA(_, _)
+FlatA(q, i) == IF i > Len(q) THEN <<>> ELSE q[i].a \o FlatA(q, i + 1)
+AdjCases(d) == UNION { UNION { LET full == FlatA(q, 1) IN
+                               {[f |-> FlatF(q, 1), a |-> full],
+                                [f |-> FlatF(q, 1), a |-> IF full = <<>> THEN <<>> ELSE SubSeq(full, 1, Len(full) - 1)],
+                                [f |-> FlatF(q, 1), a |-> full \o <<CHOOSE x \in ScanVals : TRUE>>]} : q \in [1..n -> AdjTokens] } : n \in 2..AdjLen }
 Cases(d) == (IF "scan" \in Families THEN ScanCases(d) ELSE {}) \cup (IF "val" \in Families THEN ValCases(d) ELSE {})
+            \cup (IF "adj" \in Families THEN AdjCases(d) ELSE {})
 
 Init == /\ \E c \in Cases(0) : f = c.f /\ a = c.a
         /\ mode = "text" /\ pos = 0 /\ bs = 0 /\ width = 0 /\ ai = 0 /\ out = <<>>
@@ -98,7 +111,7 @@ FmtBoolImpl(x) ==
 --------------------------------------------------------------------------
 (* the scanner *)
 Done(o, p) ==       \* the event the harness would log, judged by the property
-  LET e == [k |-> "fmt", f |-> f, a |-> a, out |-> K!Norm(o), panic |-> p, allocs |-> 0] IN
+  LET e == [k |-> "fmt", f |-> f, a |-> a, out |-> K!Norm(o), panic |-> p, hang |-> FALSE, allocs |-> 0] IN
   /\ mode' = "done" /\ out' = o /\ panicked' = p
   /\ mismatch' = FirstFailIn({"C15"}, 1, K!Judge(e))
 
@@ -108,7 +121,8 @@ Lit == /\ mode = "text" /\ pos < Len(f) /\ At(pos) # K!PCT
 
 Percent == /\ mode = "text" /\ pos < Len(f) /\ At(pos) = K!PCT
            /\ out' = out \o Slice(bs, pos)
-           /\ width' = 0 /\ pos' = pos + 1 /\ mode' = "verb"
+           /\ width' = (IF Bug = "PadLeak" /\ ~(bs < pos) THEN width ELSE 0)     \* padLen = 0 for every directive
+           /\ pos' = pos + 1 /\ mode' = "verb"
            /\ UNCHANGED <<f, a, bs, ai, panicked, mismatch>>
 
 \* inner loop ran off the end of the format string: "%", "%12"
